@@ -81,7 +81,7 @@ CHECKS = {
    "ids unique per collection; nothing claimed when the user's routing node is down; a search may fail as a whole when a shard server is down; offset heuristic not claimed exact",
    "exhaustive enumeration of request histories x deployments x single-server faults on real nodes vs reference model", "DESIGN.md §4 C17"),
  "C14": (True, "faultx", "fault_enumeration",
-   "Enumeration of configurations and faults on real in-process nodes (RPC over loopback): all 42 ordered pairs of different non-empty server sets over {A,B,C} x placement seeds x the order in which the nodes run their start-up Sync (permutations and fully concurrent), data created through the old cluster (4 users, two of whose ids are prefixes of the two others; 8 shard files); for every world the receive handler (verif fault hook at the top of RPCSendShard) fails at chunk k of the t-th transfer, optionally followed by truncating the partial destination file to 0 / 1 / size-1 bytes, then all nodes restart and synchronise twice; synthetic shard files around multiples of the 8 MiB chunk size with a failure at every chunk index. Oracle: nothing lost after an interrupted run; afterwards every record and shard file on exactly its RendezvousHash owner, byte-identical (xxhash + length), every point readable through every new node.",
+   "Enumeration of configurations and faults on real in-process nodes (RPC over loopback): all 42 ordered pairs of different non-empty server sets over {A,B,C} x placement seeds x the order in which the nodes run their start-up Sync (permutations and fully concurrent), data created through the old cluster (4 users, two of whose ids are prefixes of the two others; 8 shard files); for every world the receive handler (verif fault hook at the top of RPCSendShard) fails at chunk k of the t-th transfer, optionally followed by truncating the partial destination file to 0 / 1 / size-1 bytes, then all nodes restart and synchronise twice, with the same new server list or with a list that changed once more (back to the old one; thorough: every other list), so that a second move starts from what an interrupted one left; every record a node sends is checked (verif hook at RPCSetNodeKeyValue) not to be a slice of the sender's memory-mapped database; synthetic shard files around multiples of the 8 MiB chunk size with a failure at every chunk index. Oracle: nothing lost after an interrupted run; afterwards every record and shard file on exactly its RendezvousHash owner, byte-identical (xxhash + length), every point readable through every new node.",
    "a killed sender = its Sync returning an error; a killed receiver = the file state after chunk k; RpcRetries 1; real kill -9 inside write(2) replaced by torn-file enumeration",
    "exhaustive enumeration of configurations x fault points (chunk indices, torn files) on the real synchronisation code", "DESIGN.md §4 C14"),
  "C18": (True, "seqx-input", "exploration",
